@@ -45,6 +45,16 @@ EffClauses ==
                                   /\ O.log_directives = (CASE S.log_mode \in {"none", "full"} -> "full" [] S.log_mode = "merged" -> "merged" [] OTHER -> "nolog")
                                   /\ O.sacct_called = (S.acct # "off")
                              /\ S.selected = "sge" => O.log_directives = "sge" /\ ~O.sacct_called>>}
+    [] S.kind = "init" ->
+         (* declined: nothing is created; accepted: the configuration file is created next to the new workflow *)
+         (* file, holds exactly the chosen back end, and that is what a later `config get` returns             *)
+         {<<"C20_init_declined_noop", S.answer # "y" => O.created = << >> /\ O.exit # 0>>,
+          <<"C20_location", S.answer = "y" => O.workflow_here /\ O.conf_here /\ ~O.stray_file>>,
+          <<"C20_roundtrip", S.answer = "y" =>
+               LET b == IF S.choice = "default" THEN O.guess ELSE S.choice IN
+               /\ b \in {"slurm", "sge", "lsf", "local"}
+               /\ FileEq(O.file, [k \in {"backend"} |-> Tx(b)])
+               /\ O.got = b>>}
     [] S.kind = "local" ->
          {<<"C20_namespace", O.dialled = [port |-> IF S.port = "cfg" THEN "cfg" ELSE "default", host |-> IF S.host = "cfg" THEN "cfg" ELSE "default"]>>}
 EffStep == S.kind # "ops" /\ UNCHANGED conf /\ Judge(EffClauses)
